@@ -25,7 +25,7 @@ EXPLANATION = (
 NOT_DECIDED = ["that the value found is the minimum over all images for every cell (numerical)", "float32 rounding at half-box distances",
                "find_closest_contact neither reduces the box nor searches images (only matters for skewed cells; numerical)"]
 ASSUMPTIONS = ["round()/roundf() return the nearest integer", "fvec4 operators are element-wise"]
-FLOORS = {"C05-R1": 20, "C05-R2": 8, "C05-R3": 3, "C05-R4": 12, "C05-R5": 44, "C05-R6": 20}
+FLOORS = {"C05-R1": 20, "C05-R2": 8, "C05-R3": 3, "C05-R4": 16, "C05-R5": 44, "C05-R6": 20}
 
 DIST = "mdtraj/geometry/distance.py"
 GEO = "mdtraj/geometry/src/geometry.cpp"
@@ -206,6 +206,14 @@ def _kernels(ctx):
     a, b = core(facts["dist_mic"][1]), core(facts["dist_mic_t"][1])
     ctx.decide(a == b and len(a) >= 2, "C05-R3", C.line(facts["dist_mic_t"][0]), GEO, "dist_mic_t", "identical to dist_mic after the position load (%d statements)" % len(a), "",
                "the time-pair variant differs from dist_mic: %s" % [(x, y) for x, y in zip(a, b) if x != y][:2])
+    # ---- R4 orthorhombic kernels: wrap by the box diagonal and its reciprocal
+    for k in ("dist_mic", "dist_mic_t"):
+        fn, st = facts[k]
+        loads = {n.get("name"): _norm(C.text(C.kids(n)[-1])) for n in C.walk(fn) if n["kind"] == "VarDecl" and n.get("name") in ("box_size", "inv_box_size") and C.kids(n)}
+        ok = loads.get("box_size") == "fvec4(box_matrix[0],box_matrix[4],box_matrix[8],0)" and loads.get("inv_box_size") == "fvec4((1.0/box_matrix[0]),(1.0/box_matrix[4]),(1.0/box_matrix[8]),0)"
+        ctx.decide(ok, "C05-R4", C.line(fn), GEO, k, "box_size = diagonal of the box, inv_box_size its reciprocal", "", "orthorhombic box loads are %s" % loads)
+        wraps = [s for s in st if s.startswith("(r12-=")]
+        ctx.decide(wraps == ["(r12-=(round((r12*inv_box_size))*box_size))"], "C05-R4", C.line(fn), GEO, k, "r12 -= round(r12 / L) * L", "", "orthorhombic wrap is %s" % wraps)
     # ---- R4 on both triclinic kernels
     for k in ("dist_mic_triclinic", "dist_mic_triclinic_t"):
         fn, st = facts[k]
